@@ -781,3 +781,84 @@ Theorem extract_mb_build (l : list (bytes * bool)) t bits hashes :
   build bytes node_hash l = Some (bits, hashes) ->
   extract bytes node_hash bytes_eqb (lenL l) hashes bits = Some (thash bytes node_hash t, matched bytes l).
 Proof. apply extract_build_sib. exact bytes_eqb_spec. Qed.
+
+(* ---------- flag bytes and the wire format ---------- *)
+Lemma byte_bits_pack b0 b1 b2 b3 b4 b5 b6 b7 rest :
+  byte_bits (b8 (pack_byte (b0 :: b1 :: b2 :: b3 :: b4 :: b5 :: b6 :: b7 :: rest) 8 1)) =
+  [b0; b1; b2; b3; b4; b5; b6; b7].
+Proof.
+  unfold byte_bits. rewrite n8_b8. cbn [pack_byte].
+  destruct b0, b1, b2, b3, b4, b5, b6, b7; vm_compute; reflexivity.
+Qed.
+
+(* serializeVBits undoes the packing of whole bytes *)
+Lemma bits_of_bytes_pack : forall k bits fuel,
+  length bits = (8 * k)%nat -> (k <= fuel)%nat -> bits_of_bytes (pack_bits fuel bits) = bits.
+Proof.
+  induction k as [|k IH]; intros bits fuel Hl Hf.
+  - destruct bits; [|cbn in Hl; lia]. destruct fuel; reflexivity.
+  - do 8 (destruct bits as [|? bits]; [cbn [length] in Hl; lia|]).
+    destruct fuel as [|f]; [lia|]. cbn [pack_bits skipn]. unfold bits_of_bytes. cbn [flat_map].
+    rewrite byte_bits_pack. cbn [app]. do 8 f_equal. apply IH; [cbn [length] in Hl; lia|lia].
+Qed.
+
+Lemma pad8_mult bits : exists k, length (pad8 bits) = (8 * k)%nat.
+Proof.
+  destruct (pad8_length bits) as [k [Hk [E Hm]]]. rewrite E, app_length, repeat_length.
+  exists ((length bits + k) / 8)%nat. pose proof (Nat.div_mod (length bits + k) 8). lia.
+Qed.
+
+Lemma bits_of_flags_pad8 bits : bits_of_bytes (flags_of_bits (pad8 bits)) = pad8 bits.
+Proof.
+  destruct (pad8_mult bits) as [k Hk]. unfold flags_of_bits. apply (bits_of_bytes_pack k); [exact Hk|lia].
+Qed.
+
+(* parse after serialize, for what the wire limits allow *)
+Lemma parse_ser_merkle_block m rest :
+  length (mb_header m) = 80%nat -> mb_count m < two32 ->
+  Forall (fun h => length h = 32%nat) (mb_hashes m) ->
+  lenL (mb_hashes m) <= wire_max_hashes -> lenN (mb_flags m) <= wire_max_flags ->
+  parse_merkle_block (ser_merkle_block m ++ rest) = Some (m, rest).
+Proof.
+  destruct m as [hd cnt hs fl]. cbn [mb_header mb_count mb_hashes mb_flags].
+  intros Hh Hc Hf Hnh Hnf. unfold ser_merkle_block, parse_merkle_block, bind.
+  cbn [mb_header mb_count mb_hashes mb_flags]. rewrite <- !app_assoc.
+  rewrite (take_app_n 80) by exact Hh.
+  rewrite p_le_app by exact Hc.
+  unfold wire_max_hashes, wire_max_flags in *.
+  rewrite p_varint_app by (unfold two64; lia).
+  destruct (N.ltb_spec 400001 (lenL hs)) as [|_]; [lia|].
+  replace (concat hs) with (enc_list (fun x : bytes => x) hs) by (unfold enc_list; rewrite map_id; reflexivity).
+  rewrite p_list_app.
+  - rewrite p_varint_app by (unfold two64; lia).
+    destruct (N.ltb_spec 50000 (lenN fl)) as [|_]; [lia|].
+    unfold lenN. rewrite takeN_app. reflexivity.
+  - intros a Ha r. rewrite Forall_forall in Hf. apply (take_app_n 32). apply Hf. exact Ha.
+  - intros a Ha E. rewrite Forall_forall in Hf. apply Hf in Ha. subst a. discriminate.
+Qed.
+
+(* byte level: the serialized partial merkle tree of a block is parsed and accepted *)
+Theorem run_proof_build (header : bytes) (l : list (bytes * bool)) t bits hashes rest :
+  l <> [] -> lenL l <= max_txs -> tree_of bytes l = Some t -> sib_ok bytes node_hash t ->
+  build bytes node_hash l = Some (bits, hashes) ->
+  length header = 80%nat -> Forall (fun h => length h = 32%nat) hashes ->
+  lenN (flags_of_bits bits) <= wire_max_flags ->
+  let m := mk_mb header (lenL l) hashes (flags_of_bits bits) in
+  run_proof (ser_merkle_block m ++ rest) = POk m (thash bytes node_hash t) (matched bytes l).
+Proof.
+  intros Hne Hmax Ht Hok Hb Hh Hf Hfl m. unfold run_proof.
+  pose proof max_txs_small as Hms.
+  assert (Hmx : max_txs <= wire_max_hashes) by (vm_compute; discriminate).
+  pose proof (extract_mb_build l t bits hashes Hne Hmax Ht Hok Hb) as Ex.
+  assert (Hnh : lenL hashes <= lenL l).
+  { unfold build in Hb. rewrite Ht in Hb. injection Hb as _ <-.
+    destruct (tree_of_total bytes node_hash bytes_eqb bytes_eqb_spec l Hne) as [t' [Ht' [_ Hl]]]; [lia|].
+    rewrite Ht in Ht'. injection Ht' as <-. pose proof (thashes_le_leaves bytes node_hash t) as Hle.
+    rewrite Hl in Hle. unfold lenL. lia. }
+  rewrite parse_ser_merkle_block; subst m; cbn [mb_header mb_count mb_hashes mb_flags]; try assumption; try lia.
+  - unfold extract_mb. cbn [mb_header mb_count mb_hashes mb_flags].
+    assert (Eb : bits_of_bytes (flags_of_bits bits) = bits).
+    { unfold build in Hb. rewrite Ht in Hb. injection Hb as <- _. apply bits_of_flags_pad8. }
+    rewrite Eb, Ex. reflexivity.
+  - assert (max_txs < two32) by (vm_compute; reflexivity). lia.
+Qed.
